@@ -59,7 +59,7 @@ PROPS["C07"] = dict(
 
 PROPS["C18"] = dict(
     level="exploration",
-    budget_s=dict(quick=300, thorough=1800),
+    budget_s=dict(quick=300, thorough=2700),
     parts=[dict(name="units", bin="C18", flavour="plain", budget_share=0.7), dict(name="retrieval", bin="C18b", flavour="plain")],
     manifest=dict(
         engine="E2", design_ref="5 / C18",
@@ -188,7 +188,7 @@ PROPS["C09"] = dict(
 
 PROPS["C04"] = dict(
     level="model_checking",
-    budget_s=dict(quick=300, thorough=2700),
+    budget_s=dict(quick=300, thorough=3600),
     parts=[dict(name="graphs", bin="C04", flavour="plain")],
     manifest=dict(
         engine="E1", design_ref="5 / C04",
